@@ -91,6 +91,10 @@ def check(run):
     for n in range(0, 6):
         for sv in _it2.product([1, 2, 3, 5], repeat=n):
             plans.append([dict(op="DistinctFunc", s=list(sv), a=0, b=0, aux=[], fam="near")])
+            plans.append([dict(op="DistinctFunc", s=list(sv), a=0, b=0, aux=[], fam="leq")])
+            if n <= 3:
+                for a in (0, 2, 4, 6):
+                    plans.append([dict(op="ContainsFunc", s=list(sv), a=a, b=0, aux=[], fam="leq")])
             if n <= 3:
                 for a in (1, 2, 4):
                     plans.append([dict(op="ContainsFunc", s=list(sv), a=a, b=0, aux=[], fam="near")])
